@@ -35,6 +35,8 @@ var c05SQL = []string{"", "1", "foo", "1 union select 1", "1' or '1'='1", "1 uni
 	// one input per lexical construct (a shared scratch buffer in any lexer needs that lexer to run)
 	"q'(a)' or 1=1", "q'[b]' or 1=1", "$tag$ x $tag$ or 1", "$$y$$ or 1", "1e+5 or 0x1f", "@@version, @`v`, @'v'", "u&'x' n'y' e'z' x'00' b'01'", "[a].[b] or 1", "1 or \\N",
 	// both quote kinds, SQLi in both quote readings with different fingerprints (an adaptive "try this reading first" hint changes the answer)
+	// words with an inner '.' / back-tick (the keyword-prefix split of the word lexer)
+	"1 union select.1", "1 having`x`>0", "sys.stragg.x",
 	"' or 1=1 -- \" union select 1 --", "a\" or 1=1 --", "\" or 1=1 -- ' union select 1 --", "a' or 1=1 --", "1 union select password from users where name like 'a%' and 1=1 -- comment comment comment"}
 
 var c05XSS = []string{"", "<script>", "</a", "</a ", "<a href=javascript:alert(1)>", "onerror=x", "' onclick=1", "<!doctype", "<![CDATA[x]]>", "<%x%>",
@@ -72,6 +74,10 @@ func c05Extra() []string {
 		"x:\x00hello world <script>alert(1)</script>", "x:0123456789" + strings.Repeat("\x00", 24), "x:a" + strings.Repeat("\x00", 8), "x:<a\x00 href=javascript:x>", "x:\x00\x00<a onerror=x>\x00", "x:" + strings.Repeat("\x00", 40),
 		"x:caf\xc3\xa9 \xc2\xa0 <b>", "x:\xc2\xa0<script>",
 	}
+	// inputs that differ ONLY in letter case and differ in verdict (the case-sensitive constructs): a memo that
+	// compares case-insensitively confuses them
+	ops = append(ops, "s:foo -- sp_password", "s:FOO -- SP_PASSWORD", "s:FOO -- sp_password", "s:1 or \\N", "s:1 or \\n", "s:$a$ or 1=1 $A$ or 1=1", "s:$a$ or 1=1 $a$ or 1=1",
+		"s:q'x or 1=1 X' or 1=1", "s:q'X or 1=1 X' or 1=1", "x:<![CDATA[<script>]]>", "x:<![cdata[<script>]]>")
 	ns := []int{16, 32, 64, 128, 256, 1024, 4096}
 	for _, n := range alpha.NewInts() {
 		if n >= 8 && n <= 1<<16 {
@@ -97,9 +103,37 @@ func c05HistOps() []string { return append(c05Ops(), c05Extra()...) }
 func runOp(op string) string {
 	if op[0] == 's' {
 		b, f := lib.IsSQLi(op[2:])
+		keepResult(op, f)
 		return fmt.Sprintf("%v/%s", b, f)
 	}
 	return fmt.Sprint(lib.IsXSS(op[2:]))
+}
+
+// A returned fingerprint belongs to the caller: later calls must not change it (a string that is a view of a
+// recycled buffer reads differently after the buffer's next use). The last few returned strings are kept as
+// returned, together with a copy made at return time, and compared after every later call.
+type keptResult struct{ op, raw, copy string }
+
+var keptResults []keptResult
+
+func keepResult(op, f string) {
+	if f == "" {
+		return
+	}
+	if len(keptResults) >= 8 {
+		keptResults = keptResults[1:]
+	}
+	keptResults = append(keptResults, keptResult{op, f, strings.Clone(f)})
+}
+
+// mutatedResult reports a kept result that no longer reads as it did when it was returned.
+func mutatedResult() string {
+	for _, k := range keptResults {
+		if k.raw != k.copy {
+			return fmt.Sprintf("the fingerprint %q returned by the earlier call %q now reads %q: a later call wrote into memory the result still refers to", k.copy, k.op, k.raw)
+		}
+	}
+	return ""
 }
 
 // C05Oneshot prints the result of one op in this (fresh) process.
@@ -202,6 +236,7 @@ func showPath(p []string) string {
 func evalHist(w *fw.W, op, aux string) {
 	path := decodePath(aux)
 	vrt.Restore()
+	keptResults = nil
 	for _, p := range path {
 		runOp(p)
 	}
@@ -209,6 +244,10 @@ func evalHist(w *fw.W, op, aux string) {
 	got := runOp(op)
 	after := vrt.Digest()
 	w.Traces(1)
+	if m := mutatedResult(); m != "" {
+		w.Fail("result-mutated", fmt.Sprintf("after the call history %s and the call %q: %s", showPath(path), op, m))
+		return
+	}
 	want, okRef := c05Ref[op]
 	if !okRef {
 		panic("harness: no fresh-process reference for op " + op)
@@ -336,12 +375,17 @@ func evalLongHistory(w *fw.W, op, aux string) {
 	// replay mode re-runs the history from the initial state; in the run itself the state is carried
 	if w.Replay || upto == 0 {
 		vrt.Restore()
+		keptResults = nil
 		for k := 0; k < upto; k++ {
 			runOp(longHistoryOp(k))
 		}
 	}
 	got := runOp(op)
 	w.Traces(1)
+	if m := mutatedResult(); m != "" {
+		w.Fail("result-mutated", fmt.Sprintf("as call number %d of a linear history: %s", upto+1, m))
+		return
+	}
 	if want := c05Ref[op]; got != want {
 		w.Fail("history-dependence", fmt.Sprintf("as call number %d of a linear history (operations cycled in a fixed order) the call %q returns %s; as the first call of a fresh process it returns %s", upto+1, op, got, want))
 	}
@@ -624,7 +668,7 @@ func init() {
 		},
 		Aux: racePass,
 		Phases: []fw.Phase{
-			{Name: "history-closure", Space: "BFS over package states x 142 operations (incl. special bytes inside valid UTF-8 and raw, NUL-carrying inputs, equal-length pairs sharing their first N bytes for N around buffer sizes and new constants), history depth <=3 (quick) / <=4 (thorough), state cap 400 / 4000", Share: 2, Serial: true,
+			{Name: "history-closure", Space: "BFS over package states x 153 operations (incl. special bytes inside valid UTF-8 and raw, NUL-carrying inputs, equal-length pairs sharing their first N bytes for N around buffer sizes and new constants), history depth <=3 (quick) / <=4 (thorough), state cap 400 / 4000", Share: 2, Serial: true,
 				Run: runHist, Eval: evalHist},
 			{Name: "long-history", Space: "one linear history of 700 (quick) / 6000 (thorough) calls cycling the 68 short operations in a rotating order; every result compared with the fresh-process reference", Share: 1, Serial: true,
 				Run: func(w *fw.W) {
@@ -679,6 +723,17 @@ func init() {
 						}
 					}
 					sortPairs(items)
+					w.Each(len(items), func(i int) { w.Item(items[i][0], items[i][1]) })
+				}, Eval: evalSched},
+			{Name: "schedules-same-input", LongEval: true, Space: "every short operation against itself (two first uses of whatever that input is the first to need: lazily built tables, pools, memo entries), all-var-accesses/b2 and function-entries/b1", Share: 2,
+				Run: func(w *fw.W) {
+					ops := c05Ops()[len(c05Long):]
+					var items [][2]string
+					for _, name := range []string{"all-var-accesses/b2", "function-entries/b1"} {
+						for _, a := range ops {
+							items = append(items, [2]string{a + "||" + a, name})
+						}
+					}
 					w.Each(len(items), func(i int) { w.Item(items[i][0], items[i][1]) })
 				}, Eval: evalSched},
 			{Name: "schedules-2x2-calls", LongEval: true, Space: "2 threads x 2 calls each over an 8-input subset (history inside a thread + interleaving), sync+written-vars/b2 and function-entries/b1", Share: 2,
